@@ -99,6 +99,7 @@ class RecArr:
 
 
 _rows_cache = {}
+_REAL_SCATTER_PY = [None]     # the kernel's Python function while tsc._tsc_scatter is replaced by a recorder
 
 
 def impl_rows(tsc, g, axis, x, off):
@@ -116,7 +117,8 @@ def impl_rows(tsc, g, axis, x, off):
     pos[0, axis] = x
     grid = RecGrid(shape)
     try:
-        tsc._tsc_scatter.py_func(pos, grid, float(g), weights=None, offset=float(off))
+        scatter_py = getattr(tsc._tsc_scatter, 'py_func', None) or _REAL_SCATTER_PY[0]
+        scatter_py(pos, grid, float(g), weights=None, offset=float(off))
     except IndexError as e:
         res = ('oob', str(e))
     else:
@@ -405,6 +407,99 @@ def phases_corr(ctx, tsc):
                 ctx.fail('_tsc_parallel does not deposit every stripe exactly once', case, float(dens.sum()), 6.0, key='tsc:stripe-missed')
 
 
+def oracle_concurrent_rows(ctx, tsc):
+    """Model-free and deterministic: run the Python-level `_tsc_parallel` with `numba.prange` and `_tsc_scatter`
+    replaced by recorders, on accepted configurations with boundary-directed particles, and demand that the
+    iterations of ONE prange loop (= what may run concurrently) write pairwise disjoint grid rows.  This does not
+    wait for a lost update to happen: a loop structure in which two concurrent iterations share a row is the
+    failing input (configuration, the two iterations, the shared rows)."""
+    import numba
+    rng = ctx.rng
+    pyf = tsc._tsc_parallel.py_func
+    real_prange, real_scatter = numba.prange, tsc._tsc_scatter
+    _REAL_SCATTER_PY[0] = real_scatter.py_func
+    state = {'loop': -1, 'it': None}
+    rows_of = {}
+    cur = {}
+
+    def rec_prange(n):
+        state['loop'] += 1
+        lid = state['loop']
+        for i in range(n):
+            state['it'] = (lid, i)
+            yield i
+        state['it'] = None
+
+    def rec_scatter(positions, density, boxsize, weights=None, offset=0.0):
+        g = density.shape[cur['coord']]
+        rs = set()
+        for x in positions[:, cur['coord']]:
+            r = impl_rows(tsc, g, cur['coord'], float(x) * g / boxsize, float(offset) * g / boxsize)
+            if r[0] == 'ok':
+                rs.update(r[1])
+        rows_of.setdefault(state['it'], set()).update(rs)
+
+    configs = []
+    for g in (6, 9, 12, 13, 24, 48):
+        for nthread in (2, 4, 8):
+            for npart in (None, 2, 4, g // 3):
+                configs.append((g, nthread, npart, int(rng.integers(0, 3)), float(rng.choice([0.0, 0.5]))))
+    try:
+        for g, nthread, npart, coord, offc in configs:
+            lat, ties = particle_positions(g)
+            xs = np.array(sorted(set(lat[::2] + ties)))
+            pos = np.zeros((len(xs), 3))
+            pos[:, coord] = xs
+            shape = [2, 2, 2]
+            shape[coord] = g
+            case = {'kind': 'concurrent-rows', 'g': g, 'nthread': nthread, 'npartition': npart, 'coord': coord, 'offset_cells': offc}
+            ctx.case(case, nontrivial=True)
+            ctx.count('oracle:concurrent-rows configurations')
+            rec = []
+            orig = tsc._tsc_parallel
+            tsc._tsc_parallel = lambda ppart, starts, dens, box, weights, offset: rec.append((ppart.copy(), np.array(starts), offset))
+            try:
+                tsc.tsc_parallel(pos.copy(), np.zeros(shape), float(g), nthread=nthread, npartition=npart, coord=coord,
+                                 offset=offc, wrap=False)
+            except ValueError:
+                ctx.count('oracle:concurrent-rows rejected')
+                continue
+            finally:
+                tsc._tsc_parallel = orig
+            ppart, starts, offset = rec[0]
+            state['loop'], state['it'] = -1, None
+            rows_of.clear()
+            cur['coord'] = coord
+            # the recorders are in place only while the Python-level driver runs (compilation of other kernels
+            # must see the real numba.prange)
+            numba.prange = rec_prange
+            tsc._tsc_scatter = rec_scatter
+            try:
+                pyf(ppart, starts, np.zeros(shape), float(g), None, offset)
+            finally:
+                numba.prange = real_prange
+                tsc._tsc_scatter = real_scatter
+            by_loop = {}
+            for (lid, it), rs in rows_of.items():
+                by_loop.setdefault(lid, []).append((it, rs))
+            for lid, its in by_loop.items():
+                for a in range(len(its)):
+                    for b in range(a + 1, len(its)):
+                        common = its[a][1] & its[b][1]
+                        if common:
+                            ctx.fail('two iterations of one prange loop of _tsc_parallel (which may run concurrently) write the same grid rows',
+                                     dict(case, stripes=len(starts) - 1, prange_loop=lid, iteration_a=its[a][0], iteration_b=its[b][0]),
+                                     {'shared rows': sorted(common)[:6]}, 'pairwise disjoint row sets within a prange loop',
+                                     key='tsc:concurrent-iterations-share-row')
+                            break
+                    else:
+                        continue
+                    break
+    finally:
+        numba.prange = real_prange
+        tsc._tsc_scatter = real_scatter
+
+
 # --------------------------------------------------------------------------- (d) whole runs
 
 def gen_whole(ctx):
@@ -541,6 +636,8 @@ def run(ctx):
     stages['rows'] = round(time.time() - t0, 1)
     oracle_all(ctx, tsc, accepted)
     stages['oracle'] = round(time.time() - t0, 1)
+    oracle_concurrent_rows(ctx, tsc)
+    stages['oracle-concurrent-rows'] = round(time.time() - t0, 1)
     whole(ctx, tsc)
     stages['whole'] = round(time.time() - t0, 1)
     ctx.extra['stage_seconds_cumulative'] = stages
